@@ -389,6 +389,63 @@ fn let_release_programs() -> Vec<(&'static str, Vec<f64>, &'static str)> {
          "a record holding a boxed value is destructured by a partial record pattern in an inner block and used after that block"),
     ]
 }
+// ---- drop_closure on hand-assembled bytecode (C12): a task closure that captures closures through its upvalue cells is
+// closed, returned by dsp, run and dropped through the FFI handle (the path the scheduler uses); afterwards nothing may
+// stay alive.  Source programs cannot show this (compiled programs leak closures per sample on the pinned tree: F13).
+mod dropshared {
+    use mimium_lang::mir::OpenUpValue;
+    use mimium_lang::runtime::vm::{ClosureIdx, FuncProto, Instruction, Machine, Program};
+    use mimium_lang::runtime::vm_ffi;
+    fn upv(pos: usize) -> OpenUpValue { OpenUpValue { pos, size: 1, is_closure: true } }
+    fn proto_g() -> FuncProto {
+        FuncProto { nparam: 0, nret: 1, bytecodes: vec![Instruction::MoveConst(0, 0), Instruction::Return(0, 1)], constants: vec![0], ..Default::default() }
+    }
+    fn proto_task(heap_backed: bool, ncap: usize) -> FuncProto {
+        let call = |r| if heap_backed { Instruction::CallIndirect(r, 0, 1) } else { Instruction::CallCls(r, 0, 1) };
+        let mut bc = vec![];
+        for k in 0..ncap { bc.push(Instruction::GetUpValue(0, k as _, 1)); bc.push(call(0)); }
+        bc.push(Instruction::Return0);
+        FuncProto { nparam: 0, nret: 0, upindexes: (0..ncap).map(upv).collect(), bytecodes: bc, ..Default::default() }
+    }
+    /// `pattern[k]` = which of the created closures cell k captures (equal numbers = the same closure object)
+    fn program(pattern: &[usize], heap_backed: bool) -> Program {
+        let mk_g = |dst| if heap_backed { Instruction::MakeHeapClosure(dst, dst, 0) } else { Instruction::Closure(dst, dst) };
+        let n = pattern.len();
+        let mut bc = vec![];
+        let mut first_reg: Vec<Option<u16>> = vec![None; n + 1];
+        for (k, &which) in pattern.iter().enumerate() {
+            let k = k as u16;
+            match first_reg[which] {
+                Some(r) => bc.push(Instruction::Move(k, r)),
+                None => { bc.push(Instruction::MoveConst(k, 0)); bc.push(mk_g(k)); first_reg[which] = Some(k); }
+            }
+        }
+        let t = n as u16;
+        bc.extend([Instruction::MoveConst(t, 1), Instruction::Closure(t, t), Instruction::Close(t), Instruction::Return(t, 1)]);
+        let dsp = FuncProto { nparam: 0, nret: 1, bytecodes: bc, constants: vec![2, 3], ..Default::default() };
+        let main = FuncProto { bytecodes: vec![Instruction::Return0], ..Default::default() };
+        Program { global_fn_table: vec![("main".to_string(), main), ("dsp".to_string(), dsp), ("g".to_string(), proto_g()), ("task".to_string(), proto_task(heap_backed, n))], ..Default::default() }
+    }
+    pub fn live_after(pattern: &[usize], heap_backed: bool, samples: usize) -> Vec<(usize, usize)> {
+        let mut machine = Machine::new(program(pattern, heap_backed), std::iter::empty(), std::iter::empty());
+        machine.execute_main();
+        (0..samples).map(|_| {
+            if machine.execute_entry("dsp") < 0 { return (usize::MAX, usize::MAX); }
+            let task_raw = machine.get_top_n(1)[0];
+            let _task = Machine::get_as::<ClosureIdx>(task_raw);
+            let mut handle = unsafe { vm_ffi::runtime_handle_from_machine(&mut machine) };
+            handle.execute_closure(task_raw);
+            (machine.closures.len(), machine.heap.len())
+        }).collect()
+    }
+    pub fn cases() -> Vec<(Vec<usize>, bool)> {
+        let mut v = vec![];
+        for hb in [false, true] {
+            for p in [vec![0], vec![0, 1], vec![0, 0], vec![0, 1, 0], vec![0, 0, 1], vec![0, 0, 0], vec![0, 1, 1, 0]] { v.push((p, hb)); }
+        }
+        v
+    }
+}
 fn branch_state_programs() -> Vec<(String, Vec<f64>, String)> {
     vec![
         ("fn cnt(){ self + 1.0 }\nfn sel(c){\n  if (c) { cnt() } else { cnt()*10.0 }\n}\nfn dsp(){\n  let a = sel(0.0)\n  let b = cnt()\n  a + b*1000.0\n}\n".to_string(),
@@ -477,6 +534,12 @@ fn schedvm_programs() -> Vec<(String, Vec<f64>, String)> {
         let expect: Vec<f64> = (0..6usize).map(|t| (if t1 <= t {1.0} else {0.0}) + (if t2 <= t {10.0} else {0.0}) + (if t3 <= t {100.0} else {0.0})).collect();
         v.push((src, expect, format!("one-shots at {t1},{t2},{t3}")));
     }}}
+    // more than a thousand tasks pending at once (scheduled from global scope through a call tree), plus a chain / a burst
+    let bulk = "fn s4(){\n s1()\n s1()\n s1()\n s1()\n}\nfn s16(){\n s4()\n s4()\n s4()\n s4()\n}\nfn s64(){\n s16()\n s16()\n s16()\n s16()\n}\nfn s256(){\n s64()\n s64()\n s64()\n s64()\n}\nfn s1024(){\n s256()\n s256()\n s256()\n s256()\n}\n";
+    v.push((format!("let x = 0.0\nfn far(){{\n  x = x + 1000.0\n}}\nfn s1(){{\n  far@100000.0\n}}\n{bulk}fn tick(){{\n  x = x + 1.0\n  tick@(now+1.0)\n}}\ns1024()\ns64()\ntick@1.0\nfn dsp(){{\n  x\n}}\n"),
+            (0..12).map(|i| i as f64).collect(), "a self-rescheduling chain while 1088 far-future tasks are pending".to_string()));
+    v.push((format!("let x = 0.0\nfn bump(){{\n  x = x + 1.0\n}}\nfn s1(){{\n  bump@3.0\n}}\n{bulk}s1024()\ns64()\nfn dsp(){{\n  x\n}}\n"),
+            (0..6).map(|t| if t >= 3 { 1088.0 } else { 0.0 }).collect(), "1088 tasks due at the same sample".to_string()));
     v
 }
 /// (program A, program B, samples before the swap, expected outputs after the swap, description)
@@ -834,6 +897,21 @@ fn main() {
         // exchanges state words with the host through buffers in linear memory; they must not overlap anything else
         let only: Option<usize> = args.get(2).and_then(|s| s.parse().ok());
         let progs = exchange_programs();
+        // without an index: every program in a child process (a wrong cursor may corrupt the VM's heap and abort)
+        if only.is_none() {
+            let exe = std::env::current_exe().unwrap();
+            for (i, (_src, desc)) in progs.iter().enumerate() {
+                let out = std::process::Command::new(&exe).args(["wasm-exchange", &i.to_string()]).output().unwrap();
+                let so = String::from_utf8_lossy(&out.stdout).to_string();
+                if !out.status.success() {
+                    println!("FAILS C05[state accesses inside the storage sized from the layout] index={i} `{desc}`: the process died ({}) -- memory corruption", out.status);
+                    return;
+                }
+                if let Some(l) = so.lines().find(|l| l.starts_with("FAILS")) { println!("{l}"); return; }
+            }
+            println!("HOLDS tried={}", progs.len());
+            return;
+        }
         for (i, (src, desc)) in progs.iter().enumerate() {
             if let Some(o) = only { if o != i { continue; } }
             let vm = run_vm(src, 4);
@@ -843,7 +921,7 @@ fn main() {
                 (a, b) => { println!("FAILS C05[state identical on VM and WASM] index={i} `{desc}`: vm={a:?} wasm={b:?}"); return; }
             }
         }
-        println!("HOLDS tried={}", progs.len());
+        println!("HOLDS tried=1");
         return;
     }
     if args.get(1).map(|s| s.as_str()) == Some("type-serde-search") || args.get(1).map(|s| s.as_str()) == Some("type-serde-run") {
@@ -875,6 +953,20 @@ fn main() {
                 println!("FAILS C12[no heap object is used after it has been released] `{desc}`: the VM panics with `{msg}`");
             }
         }
+        return;
+    }
+    if args.get(1).map(|s| s.as_str()) == Some("drop-shared") {
+        let only: Option<usize> = args.get(2).and_then(|s| s.parse().ok());
+        for (i, (pattern, hb)) in dropshared::cases().iter().enumerate() {
+            if let Some(o) = only { if o != i { continue; } }
+            let r = std::panic::catch_unwind(|| dropshared::live_after(pattern, *hb, 8));
+            match r {
+                Ok(c) if c.iter().all(|x| *x == (0, 0)) => {}
+                Ok(c) => { println!("FAILS C12[live closures and heap objects are the same after sample N and 2N] index={i} a closed task closure capturing closures {pattern:?} (heap-backed: {hb}) is run and dropped every sample: (closures, heap objects) alive after samples 1..8 = {c:?}"); return; }
+                Err(_) => { println!("FAILS C12[no closure is used after release] index={i} captures {pattern:?} (heap-backed: {hb}): the VM panics"); return; }
+            }
+        }
+        println!("HOLDS tried={}", dropshared::cases().len());
         return;
     }
     if args.get(1).map(|s| s.as_str()) == Some("run-src") {
